@@ -62,6 +62,38 @@ def opKind (ws : List String) : String :=
 structure St where
   dummy : Unit := ()
 
+/-- Per-entity verdicts of the theorem predicates (`KM.Props.C08`), evaluated on what the
+implementation showed at the instant of the cut.  `n_logged`/`n_total`: how many of the
+operation's commands for this entity are in the audit log / are stored by the fault-free run. -/
+def entityPreds (e : Json) : List String :=
+  let nl := jnat (jget e "n_logged")
+  let nt := jnat (jget e "n_total")
+  let b (k : String) := (jbool? (jget e k)).getD false
+  if nl == 0 then
+    -- nothing of the request is in the log: the state must be the old one (log_state_atomic),
+    -- and so must the published-object set (full atomicity; false of this code: F-C08-1)
+    (if b "state_is_before" then [] else ["log_state_atomic"]) ++
+    (if b "objects_is_before" then [] else ["atomic:objects-ahead"])
+  else if nl == nt then
+    -- the whole request is logged: state and object set must be the new ones
+    (if b "state_is_after" then [] else ["log_state_atomic"]) ++
+    (if b "objects_is_after" then [] else ["objects_never_behind"])
+  else []   -- a request made of several commands, cut between them: judged by convergence only
+
+def isHandle (s : String) : Bool := s == "ta" || (s.length == 1 && s.all Char.isAlpha)
+
+def genSeg (s : String) : String :=
+  let s := (s.splitOn "[").headD s
+  if isHandle s then "*" else
+  match s.splitOn "-" with
+  | [p, h] => if isHandle h then p ++ "-*" else s
+  | _ => if s.all Char.isDigit && !s.isEmpty then "N" else s
+
+def diffClass (d : String) : String :=
+  -- path of the first difference with handles, indices and numbers generalised
+  let segs := (d.splitOn ":").headD "?" |>.splitOn "/" |>.filter (· ≠ "")
+  "/".intercalate ((segs.take 5).map genSeg)
+
 def step (st : St) (ws : List String) (j : Json) : St × String :=
   match ws with
   | "faultcut" :: mode :: domain :: _ =>
@@ -69,52 +101,49 @@ def step (st : St) (ws : List String) (j : Json) : St × String :=
     let mks := muts.map classify
     let cut := jnat (jget j "cut")
     let kind := opKind ws
-    -- correspondence: mutation order of the implementation = order of the model
-    match orderViolation mks with
-    | some i => (st, s!"FAIL model mutation-order violated at index {i}: {muts.getD i "?"} (object-set write after its command record)")
-    | none =>
-      -- model prediction for the first command of the op: logged iff the cut is beyond its record
-      let firstCmd := mks.findIdx? (fun m => match m with | .command _ => true | _ => false)
-      let firstClaim := (mks.findIdx? (· == .claim)).getD mks.length
-      let predLogged : Option Bool := match firstCmd with
-        | some ic =>
-          if ic < firstClaim then
-            let seg := mks.take ic
-            let hasObj := seg.any (fun m => match m with | .objects _ => true | _ => false)
-            let nT := (seg.filter (· == .taskStore)).length
-            -- position of the cut among the model's mutations
-            let kModel := ((mks.take cut).filter (fun m => match m with
-              | .objects _ => true | .taskStore => true | .command _ => true | _ => false)).length
-            some (KM.Fault.logged (inst hasObj nT) ⟨[], 0, []⟩ () kModel)
-          else none
-        | none => none
-      let logHas := (jbool? (jget j "log_has_cmd")).getD false
-      let stateCh := (jbool? (jget j "state_changed")).getD false
-      let objCh := (jbool? (jget j "objects_changed")).getD false
-      let conv := (jbool? (jget j "converged")).getD false
-      let loadP := jarr (jget j "load_problems")
-      let modelMismatch : Option String :=
-        if domain == "kv" && mode == "crash" then
-          match predLogged with
-          | some p => if p != logHas && cut < firstClaim then
-              some s!"model predicts logged={p} at cut {cut}, implementation logged={logHas}" else none
-          | none => none
+    let firstClaim := (mks.findIdx? (· == .claim)).getD mks.length
+    let entNames := (jarr (jget j "ent_names")).map jstr
+    let firstCmd := mks.findIdx? (fun m => match m with | .command ca => entNames.contains ca | _ => false)
+    -- correspondence (crash mode, single-command requests): the model instantiated with the
+    -- observed listener writes predicts whether the record is in the log at this cut
+    let ents := jfields (jget j "ents")
+    let single := ents.all fun (_, e) => jnat (jget e "n_total") ≤ 1
+    let predLogged : Option Bool := match firstCmd with
+      | some ic =>
+        if ic < firstClaim && single && mode == "crash" && domain == "kv" && cut < firstClaim then
+          let seg := mks.take ic
+          let hasObj := seg.any (fun m => match m with | .objects _ => true | _ => false)
+          let nT := (seg.filter (· == .taskStore)).length
+          let kModel := ((mks.take cut).filter (fun m => match m with
+            | .objects _ => true | .taskStore => true | .command _ => true | _ => false)).length
+          some (KM.Fault.logged (inst hasObj nT) ⟨[], 0, []⟩ () kModel)
         else none
-      match modelMismatch with
-      | some msg => (st, s!"FAIL model {msg}")
-      | none =>
-        let orc : List String :=
-          (if loadP.isEmpty then [] else ["crash_loads"]) ++
-          (if stateCh && !logHas then ["log_state_atomic"] else []) ++
-          (if objCh && !logHas then ["atomic:objects-ahead"] else []) ++
-          (if conv then [] else [s!"converge:{jstr (jget j "diff") |>.splitOn ":" |>.headD "?"}"])
-        if orc.isEmpty then
-          let phase := if cut < firstClaim then (match firstCmd with
-              | some ic => if cut ≤ ic then "before-record" else "after-record"
-              | none => "no-record") else "in-task"
-          (st, s!"ok faultcut:{kind}/{mode}/{domain}/{phase}")
-        else (st, "FAIL oracle " ++ " ".intercalate orc)
+      | none => none
+    let implLogged := ents.any fun (_, e) => jnat (jget e "n_logged") > 0
+    match predLogged with
+    | some p =>
+      if p != implLogged then
+        (st, s!"FAIL model model predicts logged={p} at cut {cut} ({muts.getD cut "?"}), implementation logged={implLogged}")
+      else judge st kind mode domain cut firstClaim firstCmd ents j
+    | none => judge st kind mode domain cut firstClaim firstCmd ents j
   | _ => (st, s!"ok trivial:{ws.headD "?"}")
+where
+  judge (st : St) (kind mode domain : String) (cut firstClaim : Nat) (firstCmd : Option Nat)
+      (ents : List (String × Json)) (j : Json) : St × String :=
+    let conv := (jbool? (jget j "converged")).getD false
+    let loadP := jarr (jget j "load_problems")
+    let rpP := jarr (jget j "rp_problems_at_cut")
+    let orc : List String :=
+      (if loadP.isEmpty then [] else ["crash_loads"]) ++
+      (if rpP.isEmpty then [] else ["rp_valid_at_cut"]) ++
+      (if cut < firstClaim then (ents.flatMap fun (_, e) => entityPreds e).eraseDups else []) ++
+      (if conv then [] else [s!"converge:{diffClass (jstr (jget j "diff"))}"])
+    if orc.isEmpty then
+      let phase := if cut < firstClaim then (match firstCmd with
+          | some ic => if cut ≤ ic then "before-record" else "after-record"
+          | none => "no-record") else "in-task"
+      (st, s!"ok faultcut:{kind}/{mode}/{domain}/{phase}")
+    else (st, "FAIL oracle " ++ " ".intercalate orc)
 
 def main : IO Unit := do
   let stdin ← IO.getStdin
